@@ -222,6 +222,8 @@ def run(ctx, res):
             % (ts['variant'], ts['changed'] + ts['missing'] + ts['extra']),
             dict(kind='tie-T3', status=ts), found_input=False))
     chain_tables_tie(fams, dumps, res)
+    from . import e2e
+    e2e.capstone_obligations(res, 'C12_')      # conditional corollary through compile_bash + a kernel-computed instance: Props/Capstone.v
     # primitives of the interpreter against real bash
     ntot, bad = t2.primitives_tie(ctx['rng'], 120 if ctx['tier'] == 'quick' else 1500)
     res.extra['primitive_comparisons'] = ntot
@@ -234,7 +236,8 @@ def run(ctx, res):
     order = list(range(len(fams)))
     variant_seen = set()
     for lo in range(0, len(order), chunk):
-        if time.time() - ctx['t0'] > budget and lo > 0:
+        # the first three chunks run whatever the clock says (the coverage floor of report.py must not depend on load)
+        if time.time() - ctx['t0'] > budget and lo >= 3 * chunk:
             break
         idx = order[lo:lo + chunk]
         cases = [t2.Case(dumps[i]['bash'], fams[i].queries, wordbreaks=fams[i].wordbreaks) for i in idx]
